@@ -1,4 +1,4 @@
-HOOK_COMMITS = ["27ad88b", "955c941"]
+HOOK_COMMITS = ["27ad88b", "955c941", "4436111", "27d3bdc"]
 NOTES = ("Machine-checked proof in Lean 4 over a hand-written executable model of go-jsonrpc, tied to /repo on every run by "
          "(a) facts regenerated from the Go source with obligations re-checked by Lean and (b) a correspondence harness that "
          "runs the real library and the model's executable definitions on the same cases / replays implementation traces "
@@ -116,6 +116,30 @@ CHECKS = [
   "design_ref": "DESIGN.md §6 C14",
   "note": TB + " PARTIAL for the second clause: unsynchronised reads are covered by the regenerated use table and the race detector (dynamic), not by a memory-model proof.",
   "technique": "Lean 4 theorems (wire invariant by induction over lock events) + regenerated facts + hook-trace inclusion + wire monitor + race-detector support"},
+ {"property_id": "C07",
+  "text": "Theorems over the subscription pipeline model (forwarder, FIFO wire, frame executor, sink, 32-slot buffer, unbounded list, caller "
+          "channel; one event per hook site): in every reachable state received ++ inTransit = sent (ordered, duplicate-free, nothing invented); "
+          "nothing in transit implies everything delivered; a channel closed by the handler's close on an uncancelled subscription has "
+          "delivered every value; the close notification is executed only after every value frame; no value is executed or forwarded before "
+          "the announcement; events of one subscription leave every other untouched; whenever the executor holds a value it cannot place, the "
+          "buffer goroutine has a move that does not depend on the consumer (or the value is discarded on cancel). Tie: regenerated skeletons "
+          "of handleOutChans/makeOutChan/closeChans/handleChanMessage/handleChanClose + scenarios (1..4 subscriptions, lengths around every "
+          "buffer size, slow and stalled consumers next to unary calls, delays at every hook) whose per-subscription hook traces are replayed "
+          "through the model and compared with what the consumers received; wire order checked on proxy frames.",
+  "design_ref": "DESIGN.md §6 C07",
+  "note": TB + " PARTIAL: liveness ('arrive', 'blocks neither') is proved in safety form and observed with time-outs.",
+  "technique": "Lean 4 theorems (FIFO-with-a-cut invariant by induction over events, refinement to a queue) + regenerated skeleton facts + hook-trace inclusion"},
+ {"property_id": "C08",
+  "text": "Theorems over the same model with the four termination causes as events: in every reachable state what the caller received is a "
+          "prefix of what the handler sent; the close of the caller channel is enabled at most once, closed stays closed and nothing is "
+          "delivered afterwards (for every continuation); neither a double close of the internal buffer nor a send on it after its close is "
+          "reachable, whichever causes race; after each cause the close is enabled once the consumer has drained (immediately on cancel) and "
+          "while values are buffered the buffer goroutine has a move. Tie: as C07 + scenarios over cause x instant x reconnect x fault kind "
+          "(including faults armed at 5 byte positions of the channel-id response, cancel racing loss, loss then close), every handed-out "
+          "channel must close and stay a prefix.",
+  "design_ref": "DESIGN.md §6 C08",
+  "note": TB + " PARTIAL: 'eventually closed' = enabledness + fairness; observed with time-outs. F12 (sink registered after the sweep) is decided by the C03 scenarios: the subscribing call then fails and no channel is handed out.",
+  "technique": "Lean 4 theorems (prefix invariant, close-once, crash-freedom by induction over events) + regenerated skeleton facts + hook-trace inclusion"},
 ]
 
 _PENDING = "check under construction in this round (see DESIGN.md §13 build order); not claimed until its theorem file, tie and unchanged-tree sweep exist"
